@@ -166,6 +166,7 @@ type loopStep struct {
 	WaitingOwn bool           `json:"waitingOwn"`
 	Uncaptured []int          `json:"uncaptured"`
 	NBucket    int            `json:"nbucket"`
+	CommittedN int            `json:"committedN"`
 	NewestImg  map[string]Ver `json:"newestImg"`
 }
 
@@ -189,17 +190,19 @@ type loopRunner struct {
 	recv    *receiver.Receiver
 	ownName string
 	// application-side history (the harness is the application)
-	appLast      map[int]int
-	appCommits   []appCommit
-	sinceStore   bool
-	storedInRun  bool
-	ownMerged    bool
-	ownExisted   bool
-	infoAtCheck  int64
-	injected     map[string]bool
-	prevNewest   map[string]Ver
-	oldSnapName  string
-	realFuture   uint64
+	appLast       map[int]int
+	appCommits    []appCommit
+	sinceStore    bool
+	storedInRun   bool
+	ownMerged     bool
+	ownExisted    bool
+	infoAtCheck   int64
+	injected      map[string]bool
+	prevNewest    map[string]Ver
+	oldSnapName   string
+	realFuture    uint64
+	injectedTimes []time.Time // timestamps of the injected remote snapshots, in injection order (= merge order)
+	mergedBase    int         // injected snapshots consumed or dropped before the current run
 }
 
 type appCommit struct {
@@ -484,6 +487,7 @@ func runLoopBehaviour(R *Result, in loopInput, beh []loopStep, bi int) error {
 			}
 		case "inject":
 			upd := lr.buildUpdate(a.Img, "remote1", now)
+			lr.injectedTimes = append(lr.injectedTimes, upd.NameInfo.Timestamp)
 			for k, v := range a.Img {
 				lr.injected[k+"="+v.String()] = true
 			}
@@ -539,6 +543,7 @@ func runLoopBehaviour(R *Result, in loopInput, beh []loopStep, bi int) error {
 			gatesMu.Unlock()
 			lr.done = nil
 			lr.recv = nil
+			lr.mergedBase = len(lr.injectedTimes) // pending injected updates are lost with the process
 			for i := range lr.appCommits {
 				lr.appCommits[i].PreStart = true // anything not captured yet counts as changed while LS was down
 			}
@@ -692,6 +697,17 @@ func runLoopBehaviour(R *Result, in loopInput, beh []loopStep, bi int) error {
 		if lt := w.lastTxn(1); lt != int64(st.LastTxn) {
 			bad("conformance", "lasttxn-differs", si, nil, "LMDB LastTxnID %d, specification %d", lt, st.LastTxn)
 			diverged = true
+		}
+		// C05/C12: what the cleaner has been told is committed (only after an own snapshot was stored)
+		if in := w.Insts[1]; in.S != nil && a.Name != "crash" && a.Name != "init" {
+			got := in.S.VerifCleaner().GetCommitted("remote1")
+			var want time.Time
+			if st.CommittedN > 0 && lr.mergedBase+st.CommittedN <= len(lr.injectedTimes) {
+				want = lr.injectedTimes[lr.mergedBase+st.CommittedN-1]
+			}
+			if !got.Equal(want) {
+				bad("C05", "cleaner-told-too-early", si, nil, "the cleaner believes the snapshot of %v of the remote instance is contained in an own stored snapshot, the specification says %v (committedN=%d)", got, want, st.CommittedN)
+			}
 		}
 		// C03 on the real state: an uncaptured application change is still there
 		if !in.Native {
